@@ -40,10 +40,24 @@ package lexer
 // write memory owned by the code under contract (the PeekingLexer under construction is unreachable from it).
 //@ interface Lexer.Next
 //@   params lx
+//@   ensures result1 != nil ==> uf("lexer_error", "Bool", result1)
+
+// Definitions hand out a usable Lexer or an error (assumed for user definitions; the stateful
+// definition's LexString is proved to do so).
+//@ interface Definition.Lex
+//@   params d, filename, r
+//@   ensures result1 == nil ==> result0 != nil
+//@ interface StringDefinition.LexString
+//@   params d, filename, input
+//@   ensures result1 == nil ==> result0 != nil
+//@ interface BytesDefinition.LexBytes
+//@   params d, filename, input
+//@   ensures result1 == nil ==> result0 != nil
 
 //@ func Upgrade [C12 C10 C15]
 //@   no-recursion
 //@   requires lex != nil
+//@   ensures result1 != nil ==> uf("lexer_error", "Bool", result1) [C06]
 //@   ensures result1 == nil ==> result0 != nil && fresh(result0) && plInv(result0) && result0.rawCursor == 0 && result0.cursor == 0
 //@   ensures result1 == nil ==> forall(t, result0.elide[t] == exists(i, 0, len(elide), elide[i] == t))
 //@   loop 1 invariant r != nil && fresh(r) && r.elide != nil && fresh(r.elide) && len(r.tokens) == 0 && r.Checkpoint == Checkpoint{0, 0, 0} && -1 <= rangeindex && rangeindex < len(elide)
@@ -268,6 +282,7 @@ package lexer
 
 //@ func (*StatefulLexer).Next [C07 C04 C03 C06]
 //@   no-recursion [C06 C07]
+//@   ensures @errshape result1 != nil ==> typeis(result1, *Error) [C06]
 //@   requires slInv(l)
 //@   modifies l.stack, l.data, l.pos
 //@   ensures slInv(l)
